@@ -63,6 +63,28 @@ def corpus_forms():
     return {"f1": f1, "f2": f2, "f3": f3}
 
 
+def extra_forms():
+    """forms for the hash-seed / repeated-input sweeps only (dict inputs are converted twice from the *same* object)"""
+    pull = """| survey |
+| | type | name | label | calculation | constraint | relevant | required | default | choice_filter |
+| | text | k | K | | | | | | |
+| | text | p1 | P1 | pulldata('fa', 'a', 'k', ${k}) | . != pulldata('fb', 'a', 'k', ${k}) | pulldata('fc', 'a', 'k', ${k}) = 'y' | pulldata('fd', 'a', 'k', ${k}) = 'y' | | |
+| | calculate | p2 | | pulldata('fe', 'a', 'k', ${k}) | | pulldata('ff', 'a', 'k', ${k}) != '' | | | |
+"""
+    nsform = """| survey |
+| | type | name | label | bind::n1:a | bind::n3:c |
+| | text | q | Q | x | y |
+| settings |
+| | namespaces |
+| | n1="http://example.com/1" n2="http://example.com/2" n3="http://example.com/3" n4="http://example.com/4" |
+"""
+    ext_dict = {"survey": [{"type": "text", "name": "st", "label": "ST"}, {"type": "select_one_external X", "name": "ex", "label": "EX", "choice_filter": "state=${st}"}],
+                "external_choices": [{"list_name": "X", "name": "x1", "label": "X1", "state": "s1", "county": "c1"}, {"list_name": "X", "name": "x2", "state": "s2", "zone": "z"}]}
+    ids_dict = {"survey": [{"type": "text", "name": "q", "label": "Q"}], "settings": [{"form_id": "fid", "id_string": "ids", "form_title": "T"}],
+                "survey_header": [{"type": None, "name": None, "label": None}], "settings_header": [{"form_id": None, "id_string": None, "form_title": None}]}
+    return [pull, nsform, ext_dict, ids_dict]
+
+
 def digest(xform, warnings, itemsets):
     return hashlib.sha1(json.dumps([xform, list(warnings or []), itemsets]).encode()).hexdigest()[:16]
 
